@@ -363,3 +363,95 @@ def unit_from_alias(prop="C08"):
                             fname="AliasedFactory.from_alias", to_case=to_case_from_alias, replay_module="rtc.c08")
     unit.__name__ = "from_alias"
     return unit
+
+
+# ------------------------------------------------------------------------------------------------------------- the shipped registry
+# AST-level obligations on the class tables of the library (scales, filters, compute, pre, post), re-read on every run:
+#     every `aliases` class attribute is a SET display of string literals (a bare string or a parenthesised single string would turn
+#     `alias in cls.aliases` into a substring test; a tuple / list would work but is not what the base class declares);
+#     within one family (the classes below one direct subclass of AliasedFactory) no alias is carried by two classes - so "the last
+#     registered wins" never has to decide anything in the shipped registry, and by from_alias's contract every alias resolves to the one
+#     class that carries it.
+# These are syntactic facts: an obligation is `true` / `false` by construction (verdicts proved / refuted), the replay is the C08 stand-in's
+# registry enumeration.
+def unit_registry(prop="C08"):
+    def unit(tier, known):
+        import ast
+        from pyvc import extract
+        from pyvc.check import UnitResult
+        from pyvc.symex import Obligation
+        u = UnitResult("alias_registry")
+        table = {}
+        for mod in ("alias", "scales", "filters", "compute", "pre", "post"):
+            try:
+                src, tree = extract.module_ast(mod)
+            except Exception as e:
+                u.outside.append((mod, f"module not readable: {e}"))
+                return u
+            for c in tree.body:
+                if isinstance(c, ast.ClassDef):
+                    al = None
+                    for s_ in c.body:
+                        tgt = None
+                        if isinstance(s_, ast.Assign) and len(s_.targets) == 1 and isinstance(s_.targets[0], ast.Name):
+                            tgt, val = s_.targets[0].id, s_.value
+                        elif isinstance(s_, ast.AnnAssign) and isinstance(s_.target, ast.Name) and s_.value is not None:
+                            tgt, val = s_.target.id, s_.value
+                        if tgt == "aliases":
+                            al = val
+                    table[c.name] = {"mod": mod, "bases": [ast.unparse(b).split(".")[-1] for b in c.bases], "aliases": al, "line": c.lineno}
+        u.functions.append({"id": "alias registry (class tables of alias / scales / filters / compute / pre / post)", "classes": len(table)})
+
+        def family(name, seen=()):
+            if name in seen or name not in table:
+                return None
+            for b in table[name]["bases"]:
+                if b == "AliasedFactory":
+                    return name
+                f = family(b, seen + (name,))
+                if f:
+                    return f
+            return None
+
+        fams = {}
+        for name, info in table.items():
+            fam = family(name)
+            if fam is None:
+                continue
+            al = info["aliases"]
+            if al is None:
+                continue
+            is_set = isinstance(al, ast.Set) and all(isinstance(e, ast.Constant) and isinstance(e.value, str) for e in al.elts)
+            empty = isinstance(al, ast.Call) and ast.unparse(al) == "set()"
+            u.obligations.append(Obligation(f"{prop}.registry.aliases_is_a_set_of_string_literals[{name}]", [], z3.BoolVal(bool(is_set or empty)), "registry", info["line"]))
+            if is_set:
+                for e in al.elts:
+                    fams.setdefault(fam, {}).setdefault(e.value, []).append(name)
+        for fam, amap in sorted(fams.items()):
+            dup = {a: cs for a, cs in amap.items() if len(cs) > 1}
+            u.obligations.append(Obligation(f"{prop}.registry.no_alias_carried_by_two_classes[{fam}]", [], z3.BoolVal(not dup), "registry", None))
+        if not u.obligations:
+            u.outside.append(("alias registry", "no class with an aliases attribute found (contract drift)"))
+
+        def tc(ob):
+            try:
+                from rtc import c08
+                ctx = c08._registry_context()
+                table_, root, classes = ctx[0], ctx[1], ctx[2]
+                all_aliases = sorted({a for k in classes for a in ctx[4](k)})
+                out = []
+                derived = sorted({d for a in all_aliases if isinstance(a, str) for d in (a[:-1], a[1:], a[:1], a + a, a.upper()) if d not in all_aliases})
+                fams_ = [k for k in classes if k != root]
+                # unknown strings first (the empty string, fragments of aliases): what a substring test would accept
+                for alias in list(getattr(c08, "UNKNOWN", ())) + derived + list(all_aliases):
+                    for fam_ in fams_:
+                        out.append({"part": "registry", "family": list(fam_), "alias": alias})
+                return out[:6000]
+            except Exception:
+                return None
+        u.to_case = tc
+        u.replay_module = "rtc.c08"
+        u.assumptions |= {"A-PYSEM"}
+        return u
+    unit.__name__ = "alias_registry"
+    return unit
